@@ -105,7 +105,7 @@ Definition in_domain (i : ident) : bool :=
   | IdProfile _ _ name => nonempty name
   | IdEndpoint p f _ => existsb (beq p) endpoint_prefixes && nonempty f
   | IdGroup _ sel ps => negb (has nl sel) && forallb valid_pid ps
-  | IdMainSet _ (SetStatic id) => length id <=? 25     (* longer fixed IDs would simply be cut *)
+  | IdMainSet _ (SetStatic id) => length id <=? 24     (* fixed IDs of 25 bytes or more are cut to 25 *)
   | IdMainSet _ (SetHashed t _) => negb (has colon t) && (length t <=? 9)
   | IdTempSet _ n => N.ltb n 18446744073709551616      (* uint on 64-bit *)
   | IdPolText x => valid_pid x
